@@ -84,7 +84,64 @@ theorem whole_strict (c : Ctx) (hign : c.ign = true) (k : String) (hk : k ∈ wh
     (hr : strictReasons k [a] = []) (r : Option Val) (hs : applyStrict k [a] = .ok r) :
     eval c (.doc [(k, v)]) = .ok r := by
   obtain ⟨hm, cls, hcls, c1, c2, c3⟩ := wholeProved_mode k hk v ha htz
-  rw [eval_whole c k v cls hcls c1 c2 c3 hm, h1, hign]
+  have hv : variadicOps.contains k = false := by
+    simp only [wholeProved, datePartOps, List.cons_append, List.nil_append, List.mem_cons,
+      List.mem_nil_iff, or_false] at hk
+    rcases hk with rfl | rfl | rfl | rfl | rfl | rfl | rfl | rfl | rfl | rfl | rfl | rfl | rfl | rfl
+      | rfl | rfl | rfl | rfl | rfl | rfl | rfl | rfl <;> decide
+  rw [eval_whole c k v cls hcls c1 c2 c3 hm ha hv, h1, hign]
   exact whole_pure k hk a hr r hs
+
+/-! ### an operator that takes one argument, given a one-item argument list -/
+
+theorem unaryOps_cases (k : String) (hk : unaryOps.contains k = true) :
+    k ∈ wholeProved ∧ unaryListOps.contains k = true ∧ k ≠ "$size" ∧ k ≠ "$concatArrays" := by
+  simp only [unaryOps, datePartOps, List.cons_append, List.nil_append, List.contains_cons,
+    List.contains_nil, Bool.or_false, Bool.or_eq_true, beq_iff_eq] at hk
+  rcases hk with rfl | rfl | rfl | rfl | rfl | rfl | rfl | rfl | rfl | rfl | rfl | rfl | rfl | rfl
+    | rfl | rfl | rfl | rfl | rfl | rfl <;> decide
+
+theorem unary_mode (k : String) (hk : unaryOps.contains k = true) (x : Val)
+    (htz : hasTzKeys x = false) : mode k x = .whole := by
+  simp only [unaryOps, datePartOps, List.cons_append, List.nil_append, List.contains_cons,
+    List.contains_nil, Bool.or_false, Bool.or_eq_true, beq_iff_eq] at hk
+  rcases hk with rfl | rfl | rfl | rfl | rfl | rfl | rfl | rfl | rfl | rfl | rfl | rfl | rfl | rfl
+    | rfl | rfl | rfl | rfl | rfl | rfl <;>
+    simp [mode, dateOps, datePartOps, wholeOps, unaryArithOps, groupingOps, htz]
+
+/-- the rules take exactly one operand -/
+theorem applyStrict_unary_one (k : String) (hk : unaryOps.contains k = true)
+    (vs : List (Option Val)) (r : Option Val) (hs : applyStrict k vs = .ok r) : ∃ a, vs = [a] := by
+  simp only [unaryOps, datePartOps, List.cons_append, List.nil_append, List.contains_cons,
+    List.contains_nil, Bool.or_false, Bool.or_eq_true, beq_iff_eq] at hk
+  match vs, hs with
+  | [a], _ => exact ⟨a, rfl⟩
+  | [], hs =>
+    rcases hk with rfl | rfl | rfl | rfl | rfl | rfl | rfl | rfl | rfl | rfl | rfl | rfl | rfl | rfl
+      | rfl | rfl | rfl | rfl | rfl | rfl <;> simp [applyStrict, datePartOps] at hs
+  | _ :: _ :: _, hs =>
+    rcases hk with rfl | rfl | rfl | rfl | rfl | rfl | rfl | rfl | rfl | rfl | rfl | rfl | rfl | rfl
+      | rfl | rfl | rfl | rfl | rfl | rfl <;> simp [applyStrict, datePartOps] at hs
+
+/-- `{$op: [x]}` for a unary operator of the fragment: the operator applied to `x` (it used to be
+    applied to the array `[x]`, unevaluated: finding `arrayliteral`) -/
+theorem unary_list_strict (c : Ctx) (hign : c.ign = true) (k : String)
+    (hk : unaryOps.contains k = true) (xs : List Val) (vs : List (Option Val))
+    (h1 : xs.map (eval c) = vs.map .ok) (htz : xs.any hasTzKeys = false)
+    (hr : strictReasons k vs = []) (r : Option Val) (hs : applyStrict k vs = .ok r) :
+    eval c (.doc [(k, .arr xs)]) = .ok r := by
+  obtain ⟨a, rfl⟩ := applyStrict_unary_one k hk vs r hs
+  obtain ⟨x, rfl⟩ : ∃ x, xs = [x] := by
+    have hlen : xs.length = 1 := by simpa using congrArg List.length h1
+    match xs, hlen with
+    | [x], _ => exact ⟨x, rfl⟩
+  simp only [List.map_cons, List.map_nil, List.cons.injEq, and_true] at h1
+  have htz' : hasTzKeys x = false := by simpa using htz
+  obtain ⟨hw, hul, _, _⟩ := unaryOps_cases k hk
+  obtain ⟨_, cls, hcls, c1, c2, c3⟩ := wholeProved_mode k hw .null rfl rfl
+  subst hcls
+  rw [eval_op_unary_list c k x c1 c2 c3 hul, unary_mode k hk x htz', h1, hign]
+  exact whole_pure k hw a hr r hs
+
 
 end MongoModel.Proofs.C04
